@@ -756,6 +756,43 @@ impl ValT for Big {
     }
 }
 
+/// An over-aligned plain value (alignment 64, size 64): strides computed from anything but
+/// `size_of::<(K, V)>()`, or storage that is not aligned for the pair type, show up as torn values.
+#[derive(Clone, PartialEq, Eq, Debug)]
+#[repr(align(64))]
+pub struct Al(pub u8, pub [u8; 7]);
+impl Default for Al {
+    fn default() -> Self {
+        Al(0xEE, [0xEE; 7])
+    }
+}
+impl ValT for Al {
+    const PLAIN: bool = true;
+    const NAME: &'static str = "Align64";
+    const MAXV: u8 = 8;
+    const LEDGER: bool = false;
+    const DEFAULT_CODE: u8 = 0xEE;
+    fn mk(v: u8) -> Self {
+        Al(v, [v ^ 0x5A; 7])
+    }
+    fn vd(&self) -> VD {
+        let aligned = (self as *const Al as usize) % 64 == 0;
+        let v = if !aligned {
+            0xFD
+        } else if self.0 == 0xEE && self.1 == [0xEE; 7] {
+            0xEE
+        } else if self.0 < 8 && self.1 == [self.0 ^ 0x5A; 7] {
+            self.0
+        } else {
+            0xFF
+        };
+        VD { id: NOID, v }
+    }
+    fn set(&mut self, v: u8) {
+        *self = Al::mk(v);
+    }
+}
+
 // ------------------------------------------------------------------------------------------
 // Kn / Vn: payloads WITHOUT drop glue (no Drop impl, not Copy) whose Clone is observable:
 // every clone goes through the ledger (fresh identity, clone_of, per-object clone count).
